@@ -855,6 +855,14 @@ class Interp:
             return len(self.headers)
         if name == "count_headers_in_line":
             return len(self.rec)
+        if name == "end":
+            # docs/functions/end.md: the value of the last header (minus n)
+            if len(self.rec) != len(self.headers):
+                raise Undefined("end() on a row whose length differs from the header row")
+            i = len(self.rec) - 1 - (abs(int(self.val(args[0]))) if args else 0)
+            if i < 0:
+                raise Undefined("end(n) before the first header")
+            return self.rec[i].strip()
         if name == "peek":
             st = self.vars.get(self.val(args[0]), [])
             i = self.val(args[1])
@@ -1082,6 +1090,13 @@ class Interp:
             return self.pos == 0
         if name == "firstscan":
             return self.res.scan_count == 1
+        if name == "after_blank":
+            # docs/functions/after_blank.md: the preceding physical line had no data in any header,
+            # no characters at all, or only whitespace
+            if self.pos == 0:
+                return False
+            prev = self.records[self.pos - 1]
+            return all(c.strip() == "" for c in prev)
         if name == "last":
             if args:
                 raise Undefined("last(x)")
@@ -1149,12 +1164,12 @@ SIDE_EFFECTS = {"push", "push_distinct", "stop", "fail_and_stop", "skip", "advan
                 "print", "counter", "sum", "subtotal", "tally", "track", "put", "pop"}
 STATEFUL = SIDE_EFFECTS | {"every", "first", "count", "last", "pop"}
 DECIDERS = {"yes", "true", "no", "false", "not", "and", "or", "in", "empty", "exists", "all",
-            "missing", "equals", "eq", "starts_with", "regex", "exact", "min_length", "too_long",
+            "missing", "equals", "eq", "starts_with", "regex", "exact", "min_length", "too_long", "after_blank",
             "max_length", "too_short", "firstline", "firstscan", "last", "failed", "valid",
             "every", "first"} | set(ABOVE) | set(BETWEEN)
 VALUE_ONLY = {"concat", "lower", "upper", "strip", "substring", "length", "add", "subtract",
               "minus", "multiply", "divide", "mod", "round", "int", "float", "count_lines",
               "count_scans", "line_number", "total_lines", "count_headers",
-              "count_headers_in_line", "peek", "peek_size", "size", "get"}
+              "count_headers_in_line", "peek", "peek_size", "size", "get", "end"}
 KNOWN_QUALS = {"onmatch", "onchange", "asbool", "nocontrib", "latch", "increase", "decrease",
                "notnone", "once", "distinct", "strict"}
